@@ -75,6 +75,18 @@ def seeded(ctx, rng, per_solver):
     for solver in ivpgen.SOLVERS:
         for j in range(per_solver):
             t0, t1, dtmin, dtmax, tol, span = ivpgen.random_config(rng, solver, long_ok=(solver != "euler"))
+            hsteps = {"adams3": 2, "adams5": 4, "bdf2": 2, "bdf6": 6}.get(solver)
+            if hsteps and rng.random() < 0.15:
+                # the end sits within a few ulps of where the start-up's own steps land: time + h + h + ... (repeated
+                # addition, as the solver does it) against time + H h (as its fit test computes it)
+                dt0 = 0.5 * (dtmin + dtmax)
+                t = t0
+                for _ in range(hsteps + rng.choice([0, 0, 1])):
+                    t += dt0
+                import struct
+                bits = struct.unpack(">q", struct.pack(">d", t))[0] + rng.randint(-3, 3)
+                t1 = struct.unpack(">d", struct.pack(">q", bits))[0]
+                span = t1 - t0
             dim = rng.randint(1, 4)
             kinds = ivpgen.SMOOTH_KINDS + (["rough"] if rng.random() < 0.3 else [])
             if solver == "euler" and dtmax > 0.05:
@@ -135,12 +147,14 @@ def judge(ctx, cases):
     return stats
 
 
-def judge_extra(ctx, cases):
+def judge_extra(ctx, cases, base=100000, tag="esc"):
+    if not cases:
+        return
     for k, c in enumerate(cases):
-        c["id"] = 100000 + k
+        c["id"] = base + k
     byid = {c["id"]: c for c in cases}
-    events = ivpcommon.harness_runs(ctx, cases, tag="esc")
-    viols = ivpcommon.validate(ctx, events, "Val_Ivp", tag="esc")
+    events = ivpcommon.harness_runs(ctx, cases, tag=tag)
+    viols = ivpcommon.validate(ctx, events, "Val_Ivp", tag=tag)
     stats = ivpcommon.run_stats(events)
     for cid, st in stats.items():
         ctx.count_case(ivpcommon.case_brief(byid[cid]), st["items"] >= 2 and st["none"] > 0 and st["err"] is None)
@@ -151,6 +165,38 @@ def judge_extra(ctx, cases):
                 ctx.violation(byid[ev["c"]]["solver"], name, ivpcommon.case_brief(byid[ev["c"]]), {"event": vlib.decode(ev)})
 
 
+def ulp_neighbours(ctx, rng, cases, per_solver):
+    """second pass: the same problems with the ending time moved to within three ulps of a time the solver lands on by
+    itself (found by a first, unrecorded run): where an interval or a start-up "only just" fits, the rounding of
+    time + n dt against n repeated additions decides, and the path must still stay inside and end at the end"""
+    import struct
+    pool = [dict(c, snaps=False, evals=False) for c in cases if c.get("origin") == "seeded" and c["solver"] != "euler"]
+    rng.shuffle(pool)
+    bysolver = {}
+    for c in pool:
+        if len(bysolver.setdefault(c["solver"], [])) < per_solver:
+            bysolver[c["solver"]].append(c)
+    first = [c for cs in bysolver.values() for c in cs]
+    for k, c in enumerate(first):
+        c["id"] = 200000 + k
+    times = {}
+    for e in ivpcommon.harness_runs(ctx, first, tag="ulp0"):
+        if e["ev"] == "item":
+            times.setdefault(e["c"], []).append(vlib.pair_to_float(e["t"]))
+    out = []
+    for c in first:
+        ts = times.get(c["id"], [])
+        if len(ts) < 8:
+            continue
+        for _ in range(2):
+            tj = ts[rng.randint(5, len(ts) - 1)]
+            bits = struct.unpack(">q", struct.pack(">d", tj))[0] + rng.choice([-3, -2, -1, 1, 2, 3]) * (1 if tj >= 0 else -1)
+            t1 = struct.unpack(">d", struct.pack(">q", bits))[0]
+            if t1 > vlib.pair_to_float(c["t0"]):
+                out.append(dict(c, t1=vlib.float_to_pair(t1), origin="ulp"))
+    return out
+
+
 def run(ctx):
     rng = random.Random(ctx.seed)
     e1(ctx)
@@ -158,6 +204,9 @@ def run(ctx):
     nmodel = len(cases)
     cases += seeded(ctx, rng, 24 if ctx.tier == "quick" else 240)
     judge(ctx, cases)
+    nb = ulp_neighbours(ctx, rng, cases, 20 if ctx.tier == "quick" else 120)
+    ctx.notes["ulp_neighbour_end_cases"] = len(nb)
+    judge_extra(ctx, nb, base=300000, tag="ulp")
     if ctx.drift and ctx.tier == "quick":
         # the code has left the verified design: spend a bounded extra budget on the contract (DESIGN 2.2)
         extra = seeded(ctx, random.Random(ctx.seed + 1000), 80)
@@ -170,7 +219,8 @@ def run(ctx):
                 "E2: those configurations (tick = 2^-6) x {zero, smooth, rough} right-hand sides on the real solvers; "
                 "E3: seeded random configurations (Appendix C of DESIGN.md), contract level for all runs and design level (step() "
                 "snapshots against IvpProtocol over doubles) for the seeded runs and a third of the model configurations. A run is non-trivial when it completes without "
-                "error with >= 2 items; distinct by full input record")
+                "error with >= 2 items; distinct by full input record; second pass: seeded problems re-run with the ending time within "
+                "three ulps of a time the solver lands on by itself")
     ctx.assumptions += ["integer-tick abstraction of time in E1 (valid while every step is >= 1 tick)",
                         "F64.java / JVM arithmetic, TLC evaluator, harness recording",
                         "gap bound checked with 4 ulp slack; all other conjuncts exact"]
